@@ -133,7 +133,8 @@ func (node *Node) popAndProcessCacheQueue() int {
 			node.sendTransactionsToNode([]crypto.Hash{hash}, nbor)
 			continue
 		}
-		batchSize += tx.ValidatedSize()
+		// the batch message carries the signed encodings, each with a 4-byte length prefix
+		batchSize += len(tx.Marshal()) + 4
 		if tx.IsSnapshotBatchable() && batchSize < p2p.TransportMessageMaxSize*2/3 {
 			batch = append(batch, hash)
 			continue
